@@ -72,7 +72,21 @@ package main
 //@   ensures result == nil && scan_reached ==> refs1 == nil && fin1 == nil && scan1 == nil
 
 //@ property C14: (*NegatedBoolValue).Set mainImplementation
-//@ property C10: mainImplementation
+// main (C10): an error from mainImplementation is written to the process's
+// standard error and the process exits with status 1; nothing else is written
+// and there is no other exit.
+//@ func main
+//@   requires @assume:A-OS-ARGS len(os.Args) >= 1 && os.Stdout != os.Stderr
+//@   modifies everything
+//@   call 0 mainImplementation as mi
+//@   call 0 mainImplementation assert arg_1 == box(os.Stdout, "*os.File") && arg_2 == box(os.Stderr, "*os.File")
+//@   call 0 fmt.Fprintf assert arg_0 == box(os.Stderr, "*os.File") && mi != nil && len(arg_2) == 1 && arg_2[0] == box(mi, "error")
+//@   call 0 os.Exit as ex
+//@   call 0 os.Exit assert mi != nil && arg_0 == 1
+//@   ensures mi_reached
+//@   ensures mi != nil ==> ex_reached
+
+//@ property C10: mainImplementation main
 //@ property C01: mainImplementation
 //@ property C18: mainImplementation
 //@ property C06: mainImplementation
